@@ -32,26 +32,26 @@ type Finding struct {
 // Violation is one observation of the real code that the spec does not allow.
 type Violation struct {
 	Property string                 `json:"property"`
-	Kind     string                 `json:"kind"`     // short machine-readable reason
-	Detail   string                 `json:"detail"`   // human-readable
-	Sig      map[string]string      `json:"sig"`      // what known-finding matchers look at
-	Case     map[string]interface{} `json:"case"`     // everything needed to replay
+	Kind     string                 `json:"kind"`   // short machine-readable reason
+	Detail   string                 `json:"detail"` // human-readable
+	Sig      map[string]string      `json:"sig"`    // what known-finding matchers look at
+	Case     map[string]interface{} `json:"case"`   // everything needed to replay
 }
 
 // Reporter collects violations and statistics; safe for concurrent use.
 type Reporter struct {
-	mu        sync.Mutex
-	Dir       string // where replay files go
-	findings  []*Finding
-	MaxFiles  int
-	files     int
-	NViol     int
-	NKnown    map[string]int
-	Samples   []interface{}
-	Counters  map[string]int64
-	Distinct  map[string]struct{}
-	Labels    map[string]int64
-	printed   map[string]bool
+	mu       sync.Mutex
+	Dir      string // where replay files go
+	findings []*Finding
+	MaxFiles int
+	files    int
+	NViol    int
+	NKnown   map[string]int
+	Samples  []interface{}
+	Counters map[string]int64
+	Distinct map[string]struct{}
+	Labels   map[string]int64
+	printed  map[string]bool
 }
 
 // NewReporter loads the known findings.
